@@ -395,7 +395,7 @@ Section Alg.
               if Nat.ltb 1 (List.length axes) then Ok None else
               if uniq then Ok None else
               match leaf_shapes si with
-              | [] => Err IndexError          (* shapes.pop() on an empty set: KeyError *)
+              | [] => Ok None                 (* no leaf at all: NoReduction (fix: len(shapes) != 1) *)
               | sh :: rest =>
                   if negb (forallb (shape_eqb sh) rest) then Ok None else
                   match axes with
